@@ -739,6 +739,7 @@ func (fx *FuncCtx) builtinModel(st *State, key string, callee *ssa.Function, arg
 	case "xml.Unmarshal", "(*xml.Decoder).Decode", "(*xml.Decoder).DecodeElement", "json.Unmarshal":
 		// decodes into the object its interface argument points to: that object's fields become unknown
 		call := site.(ssa.CallInstruction).Common()
+		pre := st.clone()
 		idx := 1
 		if key == "(*xml.Decoder).Decode" || key == "(*xml.Decoder).DecodeElement" {
 			idx = 1 // receiver is args[0]
@@ -752,7 +753,16 @@ func (fx *FuncCtx) builtinModel(st *State, key string, callee *ssa.Function, arg
 		old := st.Alloc
 		st.Alloc = fx.declare("alloc", "Int")
 		fx.emit(fmt.Sprintf("(assert (>= %s %s))", st.Alloc, old))
-		return fx.freshVal(st, "r_decode", resT), true
+		res := fx.freshVal(st, "r_decode", resT)
+		// the log of the decoder's verdict (ghosts xu_count / xu_ok of libcontracts/http.gvc), when declared
+		if gc, ok := fx.eng.specs.Ghosts["xu_count"]; ok && key == "xml.Unmarshal" && res.T != "" {
+			if gk, ok := fx.eng.specs.Ghosts["xu_ok"]; ok {
+				before := fx.heapGet(pre, "G$xu_count", gc.Sort)
+				fx.heapSet(st, "G$xu_count", gc.Sort, "(+ "+before+" 1)")
+				fx.heapSet(st, "G$xu_ok", gk.Sort, "(= (if_tag "+res.T+") 0)")
+			}
+		}
+		return res, true
 	case "(*regexp.Regexp).MatchString":
 		if args[0].HasRe {
 			return &Val{T: fx.define("rm", "Bool", fx.regexMatch(args[0].Re, args[1].T)), Ty: resT}, true
